@@ -162,6 +162,10 @@ def r2_no_retention(ctx):
         ps = [p for p in func_params(f) if p in BY_VALUE]
         if not ps or (m.name == "fit" and q.startswith("FitProperties.")):
             continue
+        if "." in q and q.split(".")[0].startswith("_"):
+            # a private helper class: its instances live for the duration
+            # of one library call and are not the library's state
+            continue
         roots = {p: f"param:{p}" for p in ps}
         al = effects.alias_map(f, roots)
         al_fp = facts.fp_aliases(f)
